@@ -523,6 +523,7 @@ func (g *gen) genEp(pols, profs []int) *epT {
 				default:
 					ti.in = append(ti.in, p)
 					ti.out = append(ti.out, p)
+					g.tags["ep:policy-both-directions"] = true
 				}
 			}
 			if len(ti.out) > 0 && g.r.intn(6) == 0 {
@@ -907,11 +908,11 @@ func splitCase(r *rng, upd bool, na, nr int) line {
 
 func splitCases(r *rng, enc *json.Encoder) {
 	N := policysync.MaxMembersPerMessage
-	for _, k := range []int{0, 5, N, N + 1, 2*N + 3, N + 1 + r.intn(N)} {
+	for _, k := range []int{0, 5, N, N + 1, 2*N + 3} {
 		_ = enc.Encode(splitCase(r, true, k, 0))
 	}
-	for _, ar := range [][2]int{{0, 0}, {3, 2}, {N + 1, 5}, {N, 1}, {5, N + 1}, {N + 1, N + 1}, {2*N + 1, 2*N + 1},
-		{N - 3, 2}, {N - 3, 4}, {r.intn(3 * N), r.intn(3 * N)}} {
+	for _, ar := range [][2]int{{0, 0}, {3, 2}, {N + 1, 5}, {N, 1}, {5, N + 1}, {N + 1, N + 1},
+		{N - 3, 2}, {N - 3, 4}, {r.intn(2 * N), r.intn(2 * N)}} {
 		_ = enc.Encode(splitCase(r, false, ar[0], ar[1]))
 	}
 }
